@@ -252,7 +252,8 @@ impl Circuit {
             final(self).wf_window(*final(gh), config, *final(clk)),   // #wf_window [C04]
             old(self).state == state ==> *final(self) == *old(self) && *final(gh) == *old(gh) && *final(clk) == *old(clk),   // #same_state_noop [C04]
             old(self).state != state ==> final(self).state == state && final(self).state_atomic.v == state as u8,   // #sets_state_and_mirror [C03,C04]
-            old(self).state != state ==> final(self).window_empty() && *final(gh) == Gh::empty(),   // #clears_window [C04,C09]
+            old(self).state != state ==> final(self).window_empty() && *final(gh) == Gh::empty(),   // #clears_window [C04]
+            old(self).state != state ==> final(self).success_count == 0 && final(self).failure_count == 0 && final(gh).trials == 0,   // #resets_completed_trial_counters [C09]
             old(self).state != state ==> final(self).last_state_change.t == final(clk).now@,   // #stamps_time [C03,C04]
             final(clk).now@ >= old(clk).now@,   // #clock_monotone
     //@body Circuit::transition_to
